@@ -42,11 +42,16 @@ func ResetGlobalsForSim() {
 
 // SimCRDV2 is a CRDV2 whose Run starts the two periodic loops without a controller-runtime
 // manager (the manager only provides the cached client, which the harness injects).
-type SimCRDV2 struct{ *CRDV2 }
+type SimCRDV2 struct {
+	*CRDV2
+	// CacheSync is the time the real Run spends waiting for the manager's cache before it starts
+	// the loops (it decides the phase between these loops and the daemon's collection loop).
+	CacheSync time.Duration
+}
 
 // NewCRDV2ForSim builds the CRD-mode interface over an injected client.
 func NewCRDV2ForSim(c client.Client, nodeName string) *SimCRDV2 {
-	return &SimCRDV2{&CRDV2{
+	return &SimCRDV2{CRDV2: &CRDV2{
 		scheme:      c.Scheme(),
 		client:      c,
 		nodeName:    nodeName,
@@ -57,12 +62,19 @@ func NewCRDV2ForSim(c client.Client, nodeName string) *SimCRDV2 {
 // Run is the tail of (*CRDV2).Run: the same two loops with the same periods.
 func (s *SimCRDV2) Run(ctx context.Context, podResources []daemon.PodResources, wg *sync.WaitGroup) error {
 	r := s.CRDV2
+	d := s.CacheSync
 	simrt.Go(func() {
+		if d > 0 {
+			simrt.Sleep(d)
+		}
 		wait.UntilWithContext(ctx, func(ctx context.Context) {
 			_ = r.syncNodeRuntime(ctx)
 		}, 3*time.Second)
 	})
 	simrt.Go(func() {
+		if d > 0 {
+			simrt.Sleep(d)
+		}
 		wait.UntilWithContext(ctx, func(ctx context.Context) {
 			_ = r.syncDeletedPods(ctx)
 		}, 5*time.Minute)
